@@ -1,6 +1,6 @@
 // Package c02: a retained listener address is served continuously across reloads.
 //
-// Protocol line:   seq <grace_ms> <napps> <cfgs> <inflight> <trace>
+// Protocol line:   seq <grace_ms>[d<shutdown_delay_ms>] <napps> <cfgs> <inflight> <trace>
 //
 //	cfgs      c0;c1;…  each  "="  (previous bytes again, unforced)  |  ["!"] (srv+srv… | "-") ["@m0" | "@m1"]
 //	          ("-": no server; "@m0"/"@m1": admin endpoint on that tcp / unix address, otherwise disabled)
@@ -83,11 +83,19 @@ func parseScenario(f []string) (sc scenario, ok bool) {
 	if len(f) < 4 {
 		return sc, false
 	}
-	g, err := strconv.Atoi(f[0])
-	if err != nil || g < 0 || g > 60000 || strconv.Itoa(g) != f[0] {
+	gs, ds, hasDelay := strings.Cut(f[0], "d")
+	g, err := strconv.Atoi(gs)
+	if err != nil || g < 0 || g > 60000 || strconv.Itoa(g) != gs {
 		return sc, false
 	}
 	sc.grace = g
+	if hasDelay {
+		d, err := strconv.Atoi(ds)
+		if err != nil || d < 1 || d > 2000 || strconv.Itoa(d) != ds {
+			return sc, false
+		}
+		sc.delay = d
+	}
 	na, err := strconv.Atoi(f[1])
 	if err != nil || na < 0 || na > 2 || len(f[1]) != 1 {
 		return sc, false
@@ -209,7 +217,11 @@ func (sc scenario) String() string {
 		}
 		ts = strings.Join(parts, ";")
 	}
-	return fmt.Sprintf("seq %d %d %s %s", sc.grace, sc.napps, strings.Join(cs, ";"), ts)
+	first := strconv.Itoa(sc.grace)
+	if sc.delay > 0 {
+		first += "d" + strconv.Itoa(sc.delay)
+	}
+	return fmt.Sprintf("seq %s %d %s %s", first, sc.napps, strings.Join(cs, ";"), ts)
 }
 
 // ---- canonical answer
@@ -234,7 +246,7 @@ func (r *runner) summary() string {
 	for k := 0; k <= n && k < len(r.results); k++ {
 		res := r.results[k]
 		if res == "stale" || r.poisoned && k == len(r.results)-1 {
-			blocks = append(blocks, res+"::::")
+			blocks = append(blocks, res+":::::")
 			break
 		}
 		var d *event
@@ -268,7 +280,7 @@ func (r *runner) summary() string {
 				dans += canonAns(d.ans[a])
 			}
 		}
-		blocks = append(blocks, fmt.Sprintf("%s:%s:%s:%s:%s", res, dsnap, dans, strings.Join(binds, ","), strings.Join(closes, ",")))
+		blocks = append(blocks, fmt.Sprintf("%s:%s:%s:%s:%s:%s", res, dsnap, dans, strings.Join(binds, ","), strings.Join(closes, ","), r.sdField(k)))
 	}
 	toks := ""
 	for i := range r.sc.toks {
@@ -460,6 +472,9 @@ func (r *runner) tags() []string {
 	if r.sc.grace > 0 {
 		set["grace"] = true
 	}
+	if r.sc.delay > 0 {
+		set["shutdown-delay"] = true
+	}
 	for k := 1; k < n; k++ {
 		c := r.sc.cfgs[k]
 		switch {
@@ -596,6 +611,9 @@ func genScenario(rng *core.Rand, maxCfgs int) scenario {
 	var sc scenario
 	sc.napps = []int{0, 1, 1, 2, 2, 2}[rng.Intn(6)]
 	sc.grace = []int{0, 0, 0, 300, 2000}[rng.Intn(5)]
+	if rng.Chance(1, 5) {
+		sc.delay = 100
+	}
 	n := 2 + rng.Intn(maxCfgs-1)
 	first := randSubset(rng, 50, 50)
 	if len(first) == 0 {
@@ -719,6 +737,8 @@ var fixedScenarios = []string{
 	"seq 0 0 u0;!u0;u0 -",
 	"seq 0 1 t0@m0;t0@m0;!t0@m0;t0@m1;t0;t0@m1 2:t0:s",
 	"seq 0 0 u0@m1;u0@m1;!-@m1;=;u0@m0 -",
+	"seq 0d100 0 t0,t1;t0,t1;t0;t0,u0;t0,u0;t0,u1;t0,u1;!t0,t2;- -",
+	"seq 300d100 1 t0+t1;t0+t2;!t0,t1+t2 2:t0:s",
 	"seq 0 2 t0;!t0,t1,u1;t0,u1 1:t0:s",
 	"seq 300 2 t0,t1,u0,u1;t0,u1;=;t0,t1,u0,u1;- 1:t1:r;1:u1:d;5:t0:t",
 	"seq 0 0 u0;-;u0;u0;u1 -",
@@ -730,7 +750,7 @@ var malformed = []string{
 	"seq 0 0 = - -", "seq 0 0 !t0 - -", "seq 0 0 t0;t1 1:t1:p -", "seq 0 0 t0;t1 1:t0:q -", "seq 0 0 t0;t1 3:t0:p -",
 	"seq 0 0 t0;t1 2:t1:p -", "seq 0 1 t0;!t0 1:t0:s -", "seq 0 0 t0;= 1:t0:p -", "storm 3", "seq -1 0 t0 - -", "seq 0 0 t0; - -",
 	"seq 0 0 t0+ - -", "seq 00 0 t0 - -", "seq 0 0 t0;t0 01:t0:p -", "seq 0 0 t0@t1 - -", "seq 0 0 m0 - -", "seq 0 0 t0@ - -",
-	"seq 0 0 t0;=@m0 - -", "seq 0 0 t0@m0;t0 1:m0:p -",
+	"seq 0 0 t0;=@m0 - -", "seq 0 0 t0@m0;t0 1:m0:p -", "seq 0d0 0 t0 - -", "seq 0d 0 t0 - -", "seq d5 0 t0 - -", "seq 0d5d 0 t0 - -", "seq 0d3000 0 t0 - -",
 }
 
 func (p *prop) Generate(rng *core.Rand, tier string, emit func(string)) {
